@@ -12,8 +12,12 @@ for k, v in params.items():
 K.P = params
 c = ConcCtx(json.loads(sys.argv[4]) if len(sys.argv) > 4 else {})
 call = K.setup(c)
-fn = resolve_real(K.target)
-args = ([call.self_obj] if call.self_obj is not None else []) + list(call.args)
+if hasattr(K, 'real_call'):
+    fn = lambda *a_, **k_: K.real_call(c, call)  # noqa
+    args = []
+else:
+    fn = resolve_real(K.target)
+    args = ([call.self_obj] if call.self_obj is not None else []) + list(call.args)
 try:
     res = fn(*args, **call.kwargs)
     oc = Outcome('return', result=res)
